@@ -32,6 +32,13 @@ def parse_expr(s: str) -> ast.AST:
     return _EXPR_CACHE[s]
 
 
+class LemmaInst:
+    """Instance of a proved lemma: premises become side obligations, the conclusion a hypothesis."""
+
+    def __init__(self, name, premises, conclusion):
+        self.name, self.premises, self.conclusion = name, premises, conclusion
+
+
 class Raise:
     def __init__(self, exc, node=None):
         self.exc = exc
@@ -44,12 +51,13 @@ class Engine(ExprEval, NumpyModel, NumpyFuncs):
         self.spec_consts = dict(spec_consts or {})
         self.spec_funcs = dict(spec_funcs or {})
         self.spec_names = set(self.spec_funcs) | {"forall", "exists", "implies", "iff", "ite", "old", "shape", "rowsum",
-                                                  "is_none", "typeis", "lam", "isnan_", "fresh"}
+                                                  "is_none", "typeis", "lam", "isnan_", "fresh", "using"}
         self.externals = dict(externals or {})
         self.obligations: list[Obligation] = []
         self.assumptions: set[str] = set()
         self.inlined: set[str] = set()
         self.used_contracts: set[str] = set()
+        self.used_lemmas: set[str] = set()
         self.cur: Contract | None = None
         self.cur_fi: FuncInfo | None = None
         self._oid_counts = {}
@@ -554,6 +562,8 @@ class Engine(ExprEval, NumpyModel, NumpyFuncs):
             return r.get(i)
         if name == "fresh":
             return fresh_scalar(args[0] if args else "int", "fresh")
+        if name == "using":
+            return self.truth(st, args[-1])
         f = self.spec_funcs[name]
         return f(self, st, *args, **kw)
 
@@ -680,7 +690,18 @@ class Engine(ExprEval, NumpyModel, NumpyFuncs):
             finally:
                 st.env = saved
             return [(guards + h, g) for h, g in inner]
-        mark = len(st.pc)
+        if isinstance(node, ast.Call) and isinstance(node.func, ast.Name) and node.func.id == "using" and "using" not in st.env:
+            *insts, prop = node.args
+            hyps, side = [], []
+            for inode in insts:
+                inst = self.eval(st, inode)
+                if not isinstance(inst, LemmaInst):
+                    raise EngineError("using(...) needs lemma instances")
+                self.used_lemmas.add(inst.name)
+                for pr in inst.premises:
+                    side.append((list(hyps), pr))
+                hyps.append(inst.conclusion)
+            return side + [(hyps + h, g) for h, g in self.sequents(st, prop)]
         g = self.truth(st, self.eval(st, node))
         return [([], g)]
 
